@@ -7,6 +7,43 @@ pub fn check(v: &View, vd: &mut Verdict) {
     // "its call returns Ok": a message that was handled before the stop took effect answers its caller
     super::c02::handled_call_ok(v, vd, "C04");
     super::c02::errors_after_death(v, vd, "C04");
+    abandoned_accepted(v, vd, "C04");
+}
+
+/// A call whose future the client polled and then dropped (the losing arm of a `select!`, a client-side
+/// timeout) has still *submitted* its message when the first poll could not have waited for room: through
+/// `Addr`/`OwningAddr` (forcing lane) always, through `Caller`/`WeakCaller` on an unbounded mailbox.
+pub fn accepted_when_abandoned(v: &View, o: &OpRec) -> bool {
+    o.what == OpWhat::CallAbandoned
+        && matches!(o.res, Some(OpRes::Abandoned))
+        && o.actor.is_some_and(|a| match o.via {
+            Some(crate::model::HKind::Addr | crate::model::HKind::Owning) => true,
+            Some(crate::model::HKind::Caller | crate::model::HKind::WeakCaller) => matches!(v.rt[a].mailbox, crate::model::Mailbox::Unbounded),
+            _ => false,
+        })
+}
+
+/// The mailbox is one FIFO queue: a message that was accepted is not skipped in favour of a message
+/// submitted later - whether or not its caller still waits for the answer.
+pub fn abandoned_accepted(v: &View, vd: &mut Verdict, prop: &str) {
+    for o in v.client_ops().filter(|o| accepted_when_abandoned(v, o)) {
+        let a = o.actor.unwrap();
+        let id = o.msg.unwrap();
+        if !v.inv_of_msg(id).is_empty() {
+            vd.class("abandoned_call_handled");
+            continue;
+        }
+        let later = v
+            .client_ops()
+            .filter(|p| p.actor == Some(a) && p.begin > o.begin && matches!(p.what, OpWhat::Send | OpWhat::Call | OpWhat::CallAbandoned | OpWhat::SendAbandoned))
+            .find(|p| p.msg.is_some_and(|m| !v.inv_of_msg(m).is_empty()));
+        if let Some(p) = later {
+            vd.fail(
+                format!("{prop}/abandoned_call_skipped/{:?}", o.via.unwrap()),
+                format!("actor {a}: call {id} via {:?} was in the mailbox from {} on (its future was dropped afterwards) and was never handled, but message {:?} submitted later at {} was", o.via, o.begin, p.msg, p.begin),
+            );
+        }
+    }
 }
 
 /// the stop-barrier rules; `awaiters` = also the announcement rules (d) and the classes
@@ -70,10 +107,12 @@ pub fn barrier(v: &View, vd: &mut Verdict, prop: &str, awaiters: bool) {
         // the barrier is stated "absent failures": a failed actor only has to report its failure to awaiters
         let failed = av.task_end.is_some() && !av.graceful;
         // (a) / (b)
-        for o in v.client_ops().filter(|o| o.actor == Some(a) && matches!(o.what, OpWhat::Send | OpWhat::Call)) {
+        for o in v.client_ops().filter(|o| o.actor == Some(a) && (matches!(o.what, OpWhat::Send | OpWhat::Call) || accepted_when_abandoned(v, o))) {
             let id = o.msg.unwrap();
             let invs = v.inv_of_msg(id);
-            if o.ok() && o.end.is_some_and(|e| e < first_issued) && !failed {
+            // (an abandoned call that did not have to wait for room was accepted during its first poll)
+            let accepted = if o.what == OpWhat::CallAbandoned { o.begin < first_issued } else { o.ok() && o.end.is_some_and(|e| e < first_issued) };
+            if accepted && !failed {
                 class_a = true;
                 // (an invocation that exceeds a configured handler timeout is abandoned half-way: C11's matter)
                 let abandoned = v.rt[a].timeout.is_some_and(|(t, _)| v.work_of(id).is_some_and(|w| w.iter().map(|s| if let crate::model::Step::Sleep(x) = s { *x as u64 } else { 0 }).sum::<u64>() > t as u64));
